@@ -61,6 +61,9 @@ func buildReport(id, tier string, seed int, claim *Claim, results []*FnResult, a
 		if o.Verdict == "sat" {
 			r = "refuted by the solver (counterexample model available)"
 		}
+		if o.Hyp {
+			r += "; this obligation is outside the kinds this claim consists of, but the claimed obligations of the function are proved under it as a hypothesis, so they are not established"
+		}
 		fails = append(fails, &failure{o: o, reason: r})
 	}
 	for _, r := range results {
